@@ -478,6 +478,11 @@ Proof. reflexivity. Qed.
 Lemma ub_acctok_inc s t o : acctok (update_balance hash s t (Some o) 1) = <[(o, hash t) := t]> (acctok s).
 Proof. reflexivity. Qed.
 
+(** NNSBase's lemmas, instantiated (they are generalised over all section
+    variables there) *)
+Definition gnwk_halt := get_ns_with_key_halt hash valid_name valid_data str_ok.
+Definition gfn_halt := get_frag_ns_halt hash valid_name valid_data str_ok.
+
 (** a stored non-TLD name: its state carries the name and a 20-byte owner *)
 Lemma stored_nontld s n ns :
   acct_inv s -> get_ns s n = Some ns -> ns_name ns = n /\
@@ -587,7 +592,7 @@ Proof.
   intros Inv H. unfold NNS.nexec in H. cbv zeta in H.
   inv1 H. rename E into Eval. apply is_valid_some in Eval as (t & -> & Hlen).
   inv1 H. rename E into Etld. apply negb_true_iff in Etld.
-  inv1 H. rename E into Eg. rename x into ns0. apply get_ns_with_key_halt in Eg as [Eg Elive].
+  inv1 H. rename E into Eg. rename x into ns0. apply gnwk_halt in Eg as [Eg Elive].
   destruct (stored_nontld _ _ _ Inv Eg) as (Hn0 & Ho0 & _).
   destruct (Ho0 Etld) as (o0 & Ho0' & Hl0). rewrite Ho0' in H.
   change (akey (Some o0)) with o0 in H. change (akey (Some t)) with t in H.
@@ -596,7 +601,7 @@ Proof.
   destruct (wit_of c o0) eqn:Ew; cbn [negb] in H.
   - right. split; [reflexivity|].
     inv1 H. rename E into Epost. apply post_transfer_halt in Epost as [-> _].
-    injection H as <- <-. split; [reflexivity|]. split; [reflexivity|].
+    injection H as <- <- <-. split; [reflexivity|]. split; [reflexivity|].
     destruct (bytes_eqb o0 t) eqn:Eeq.
     + apply bytes_eqb_eq in Eeq. left. auto.
     + apply bytes_eqb_neq in Eeq. right. split; [exact Eeq|].
@@ -627,7 +632,7 @@ Proof.
   inv1 H. rename E into Elen.
   inv1 H. rename E into Emul. apply vm_mul_halt in Emul. subst.
   inv1 H. rename E into Egas. unfold burn_gas in Egas. apply oassert_halt in Egas.
-  inv1 H. rename E into Eg. apply get_frag_ns_halt in Eg as (Eg & Elive & Epar).
+  inv1 H. rename E into Eg. apply gfn_halt in Eg as (Eg & Elive & Epar).
   inv1 H. rename E into Eadm. apply check_admin_halt in Eadm.
   inv1 H. rename E into Emul. apply vm_mul_halt in Emul. subst.
   inv1 H. rename E into Eadd. apply vm_add_halt in Eadd. subst.
@@ -637,7 +642,7 @@ Proof.
   match goal with Hg : names s !! hash name = Some ?n |- _ => exists n; rename Hg into Eg'; pose (ns0 := n) end.
   replace (millisecondsInYear * y) with (y * millisecondsInYear) in * by lia.
   split; [lia|]. split; [lia|]. split; [exact Eg'|]. split; [exact Elive|].
-  split; [exact Epar|]. split; [exact Eadm|]. split; [exact Evalid|].
+  split; [exact Epar|]. split; [exact Eadm|]. split; [first [exact Evalid|reflexivity]|].
   split.
   { intros Ht. unfold is_tld in Ht. apply andb_false_iff in Eten as [Eten|Eten]; [|lia].
     pose proof (split_dot_length_pos name). lia. }
@@ -657,7 +662,7 @@ Proof.
   inv1 H. rename E into Elen.
   inv1 H. rename E into Etld. apply negb_true_iff in Etld.
   inv1 H. rename E into Eadm.
-  inv1 H. rename E into Eg. apply get_frag_ns_halt in Eg as (Eg & Elive & Epar).
+  inv1 H. rename E into Eg. apply gfn_halt in Eg as (Eg & Elive & Epar).
   inv1 H. rename E into Eow.
   injection H as <- <- <-.
   match goal with Hg : names s !! hash name = Some ?n |- _ => exists n; rename Hg into Eg' end.
@@ -734,6 +739,232 @@ Lemma safe_same c s o s' r ns :
 Proof.
   intros Hs H. destruct o; try discriminate Hs; unfold NNS.nexec in H; cbv zeta in H;
     crunch H; injection H as <- <- <-; auto.
+Qed.
+
+
+(** * 4. Every halting invocation has one of six shapes *)
+Definition no_transfer (ns : list nnotif) : Prop := forall f t n, NTransfer f t n ∉ ns.
+
+Lemma no_transfer_nil : no_transfer [].
+Proof. intros f t n Hin. apply elem_of_nil in Hin. exact Hin. Qed.
+Lemma no_transfer_renew a b d : no_transfer [NRenew a b d].
+Proof. intros f t n Hin. apply elem_of_list_singleton in Hin. discriminate. Qed.
+Lemma no_transfer_admin a b d : no_transfer [NSetAdmin a b d].
+Proof. intros f t n Hin. apply elem_of_list_singleton in Hin. discriminate. Qed.
+
+Inductive shape (s s' : nstate) (ns : list nnotif) : Prop :=
+| sh_same : acc_same s s' -> no_transfer ns -> shape s s' ns
+| sh_self o n ns0 : s' = s -> get_ns s n = Some ns0 -> ns_owner ns0 = Some o ->
+    ns = [NTransfer (Some o) (Some o) n] -> shape s s' ns
+| sh_meta k ns0 ns1 : acc_meta s s' k ns0 ns1 -> no_transfer ns -> shape s s' ns
+| sh_newtld n ns1 : acc_newtld s s' n ns1 -> ns = [] -> shape s s' ns
+| sh_mint o n ns1 : acc_mint s s' o n ns1 -> ns = [NTransfer None (Some o) n] -> shape s s' ns
+| sh_move o0 o n ns0 ns1 : acc_move s s' o0 o n ns0 ns1 ->
+    ns = [NTransfer (Some o0) (Some o) n] -> shape s s' ns.
+
+Lemma acc_same_refl s : acc_same s s.
+Proof. repeat split. Qed.
+
+Lemma nexec_shape c s o s' r ns :
+  acct_inv s -> nexec c s o = Halt (s', r, ns) -> shape s s' ns.
+Proof.
+  intros Inv H. destruct o.
+  - (* Register *)
+    apply (register_inv _ _ _ _ _ _ _ _ _ _ _ _ Inv) in H
+      as (o & -> & Hlen & Ht & _ & _ & _ & _ & _ & _ & _ & _ & Hc).
+    destruct Hc as [(ns0 & Hg & Hl & -> & -> & ->)|[(ns0 & o0 & Hg & Hl & -> & -> & Hm)|(Hg & -> & -> & Hm)]].
+    + apply sh_same; [apply acc_same_refl|apply no_transfer_nil].
+    + eapply sh_move; [exact Hm|reflexivity].
+    + eapply sh_mint; [exact Hm|reflexivity].
+  - (* RegisterTLD *)
+    apply (register_tld_inv _ _ _ _ _ _ _ _ _ _ _ Inv) in H
+      as (_ & _ & Ht & -> & -> & N1 & N2 & N3 & N4 & N5 & N6).
+    destruct (names s !! hash name) as [ns0|] eqn:Eg.
+    + destruct (stored_nontld _ _ _ Inv Eg) as (Hn0 & _ & Ho0).
+      eapply (sh_meta _ _ _ (hash name) ns0); [|apply no_transfer_nil].
+      unfold acc_meta. rewrite (Ho0 Ht), Hn0. cbn [ns_owner ns_name]. repeat split; try assumption.
+    + eapply (sh_newtld _ _ _ name); [|reflexivity].
+      unfold acc_newtld. cbn [ns_owner ns_name]. repeat split; try assumption.
+  - (* Transfer *)
+    apply (transfer_inv _ _ _ _ _ _ _ Inv) in H
+      as (t & ns0 & o0 & -> & Hlen & Ht & Hg & Hl & Hn0 & Ho0 & Hc).
+    destruct Hc as [(_ & -> & -> & ->)|(_ & -> & -> & [(-> & ->)|(Hne & _ & _ & _ & Hm)])].
+    + apply sh_same; [apply acc_same_refl|apply no_transfer_nil].
+    + eapply sh_self; [reflexivity|exact Hg|exact Ho0|reflexivity].
+    + eapply sh_move; [exact Hm|reflexivity].
+  - (* Renew *)
+    apply (renew_inv _ _ _ _ _ _ _ Inv) in H
+      as (ns0 & _ & _ & Hg & _ & _ & _ & _ & _ & -> & -> & ->).
+    eapply (sh_meta _ _ _ (hash name) ns0); [|apply no_transfer_renew].
+    unfold acc_meta. cbn [names supply balances acctok set_names ns_owner ns_name].
+    repeat split; try assumption.
+  - (* SetAdmin *)
+    apply (set_admin_inv _ _ _ _ _ _ _ Inv) in H as (ns0 & Hg & _ & _ & -> & -> & ->).
+    eapply (sh_meta _ _ _ (hash name) ns0); [|apply no_transfer_admin].
+    unfold acc_meta. cbn [names supply balances acctok set_names ns_owner ns_name].
+    repeat split; try assumption.
+  - apply add_record_keeps in H as [Hk ->].
+    apply sh_same; [apply keeps_acc_same, Hk|apply no_transfer_nil].
+  - apply set_record_keeps in H as [Hk ->].
+    apply sh_same; [apply keeps_acc_same, Hk|apply no_transfer_nil].
+  - apply delete_records_keeps in H as [Hk ->].
+    apply sh_same; [apply keeps_acc_same, Hk|apply no_transfer_nil].
+  - apply update_soa_keeps in H as [Hk ->].
+    apply sh_same; [apply keeps_acc_same, Hk|apply no_transfer_nil].
+  - apply set_price_inv in H as (-> & -> & _).
+    apply sh_same; [repeat split|apply no_transfer_nil].
+  - apply safe_same in H as [-> ->]; [|reflexivity]. apply sh_same; [apply acc_same_refl|apply no_transfer_nil].
+  - apply safe_same in H as [-> ->]; [|reflexivity]. apply sh_same; [apply acc_same_refl|apply no_transfer_nil].
+  - apply safe_same in H as [-> ->]; [|reflexivity]. apply sh_same; [apply acc_same_refl|apply no_transfer_nil].
+  - apply safe_same in H as [-> ->]; [|reflexivity]. apply sh_same; [apply acc_same_refl|apply no_transfer_nil].
+  - apply safe_same in H as [-> ->]; [|reflexivity]. apply sh_same; [apply acc_same_refl|apply no_transfer_nil].
+  - apply safe_same in H as [-> ->]; [|reflexivity]. apply sh_same; [apply acc_same_refl|apply no_transfer_nil].
+  - apply safe_same in H as [-> ->]; [|reflexivity]. apply sh_same; [apply acc_same_refl|apply no_transfer_nil].
+  - apply safe_same in H as [-> ->]; [|reflexivity]. apply sh_same; [apply acc_same_refl|apply no_transfer_nil].
+  - apply safe_same in H as [-> ->]; [|reflexivity]. apply sh_same; [apply acc_same_refl|apply no_transfer_nil].
+  - apply safe_same in H as [-> ->]; [|reflexivity]. apply sh_same; [apply acc_same_refl|apply no_transfer_nil].
+  - apply safe_same in H as [-> ->]; [|reflexivity]. apply sh_same; [apply acc_same_refl|apply no_transfer_nil].
+  - apply safe_same in H as [-> ->]; [|reflexivity]. apply sh_same; [apply acc_same_refl|apply no_transfer_nil].
+Qed.
+
+Lemma shape_inv s s' ns : acct_inv s -> shape s s' ns -> acct_inv s'.
+Proof.
+  intros Inv [Hs _|o n ns0 -> _ _ _|k ns0 ns1 Hm _|n ns1 Hm _|o n ns1 Hm _|o0 o n ns0 ns1 Hm _].
+  - exact (inv_same _ _ Inv Hs).
+  - exact Inv.
+  - exact (inv_meta _ _ _ _ _ Inv Hm).
+  - exact (inv_newtld _ _ _ _ Inv Hm).
+  - exact (inv_mint _ _ _ _ _ Inv Hm).
+  - exact (inv_move _ _ _ _ _ _ _ Inv Hm).
+Qed.
+
+(** ** The invariant along every history *)
+Lemma nexec_inv c s o s' r ns : acct_inv s -> nexec c s o = Halt (s', r, ns) -> acct_inv s'.
+Proof. intros Inv H. exact (shape_inv _ _ _ Inv (nexec_shape _ _ _ _ _ _ Inv H)). Qed.
+
+Lemma nstep_inv s co : acct_inv s -> acct_inv (fst (fst (nstep s co))).
+Proof.
+  intros Inv.
+  destruct (nstep_cases hash valid_name valid_data str_ok s co) as [(s' & r & ns & He & ->)|[_ ->]].
+  - cbn [fst]. exact (nexec_inv _ _ _ _ _ _ Inv He).
+  - exact Inv.
+Qed.
+
+Lemma nrun_from_inv ops : forall s, acct_inv s -> acct_inv (nrun_from s ops).
+Proof.
+  induction ops as [|co ops IH]; intros s Inv; [exact Inv|].
+  unfold NNS.nrun_from. cbn [fold_left]. apply IH, nstep_inv, Inv.
+Qed.
+
+Theorem nrun_inv ops : acct_inv (nrun ops).
+Proof. apply nrun_from_inv, acct_inv_init. Qed.
+
+(** ** Owners and Transfer notifications *)
+(** the owner recorded for a name; [None] for unregistered names and TLDs *)
+Definition owner_of (s : nstate) (n : bytes) : option bytes :=
+  match get_ns s n with Some ns => ns_owner ns | None => None end.
+
+Lemma hash_ne a b : a <> b -> hash a <> hash b.
+Proof. intros Hne Heq. apply Hne, hash_inj, Heq. Qed.
+
+Lemma shape_owner s s' ns :
+  acct_inv s -> shape s s' ns ->
+  (forall f t n, NTransfer f t n ∈ ns -> f = owner_of s n /\ t = owner_of s' n) /\
+  ((forall n, owner_of s' n = owner_of s n) \/
+   exists n0, owner_of s' n0 <> owner_of s n0 /\
+     ns = [NTransfer (owner_of s n0) (owner_of s' n0) n0] /\
+     forall n, n <> n0 -> owner_of s' n = owner_of s n).
+Proof.
+  intros Inv [Hs Hno|o n0 ns0 -> Hg Ho ->|k ns0 ns1 Hm Hno|n0 ns1 Hm ->|o n0 ns1 Hm ->|o0 o n0 ns0 ns1 Hm ->].
+  - split; [intros f t n Hin; destruct (Hno _ _ _ Hin)|].
+    left. intros n. unfold owner_of, NNS.get_ns. destruct Hs as (-> & _). reflexivity.
+  - split; [|left; reflexivity].
+    intros f t n Hin. apply elem_of_list_singleton in Hin. injection Hin as -> -> ->.
+    unfold owner_of. rewrite Hg. auto.
+  - split; [intros f t n Hin; destruct (Hno _ _ _ Hin)|].
+    left. intros n. unfold owner_of, NNS.get_ns.
+    destruct Hm as (Hk & Ho & Hn & -> & _).
+    destruct (decide (hash n = k)) as [->|Hne].
+    + rewrite lookup_insert, Hk. exact Ho.
+    + rewrite lookup_insert_ne by congruence. reflexivity.
+  - split; [intros f t n Hin; apply elem_of_nil in Hin; destruct Hin|].
+    left. intros n. unfold owner_of, NNS.get_ns.
+    destruct Hm as (Hk & Ht & Hn & Ho & -> & _).
+    destruct (decide (hash n = hash n0)) as [->|Hne].
+    + rewrite lookup_insert, Hk. exact Ho.
+    + rewrite lookup_insert_ne by congruence. reflexivity.
+  - destruct Hm as (Hk & Ht & Hlen & Hn & Ho & E1 & _).
+    assert (O0 : owner_of s n0 = None) by (unfold owner_of, NNS.get_ns; rewrite Hk; reflexivity).
+    assert (O1 : owner_of s' n0 = Some o) by (unfold owner_of, NNS.get_ns; rewrite E1, lookup_insert; exact Ho).
+    assert (Oth : forall n, n <> n0 -> owner_of s' n = owner_of s n).
+    { intros n Hne. unfold owner_of, NNS.get_ns. rewrite E1.
+      rewrite lookup_insert_ne by (apply not_eq_sym, hash_ne, Hne). reflexivity. }
+    split.
+    + intros f t n Hin. apply elem_of_list_singleton in Hin. injection Hin as -> -> ->. auto.
+    + right. exists n0. rewrite O0, O1. split; [discriminate|]. split; [reflexivity|exact Oth].
+  - destruct Hm as (Hk & Hn0 & Ho0 & Ht & Hlen & Hn & Ho & E1 & _).
+    assert (O0 : owner_of s n0 = Some o0) by (unfold owner_of, NNS.get_ns; rewrite Hk; exact Ho0).
+    assert (O1 : owner_of s' n0 = Some o) by (unfold owner_of, NNS.get_ns; rewrite E1, lookup_insert; exact Ho).
+    assert (Oth : forall n, n <> n0 -> owner_of s' n = owner_of s n).
+    { intros n Hne. unfold owner_of, NNS.get_ns. rewrite E1.
+      rewrite lookup_insert_ne by (apply not_eq_sym, hash_ne, Hne). reflexivity. }
+    split.
+    + intros f t n Hin. apply elem_of_list_singleton in Hin. injection Hin as -> -> ->. auto.
+    + destruct (decide (o = o0)) as [->|Hne].
+      * left. intros n. destruct (decide (n = n0)) as [->|Hnn]; [congruence|apply Oth, Hnn].
+      * right. exists n0. rewrite O0, O1. split; [congruence|]. split; [reflexivity|exact Oth].
+Qed.
+
+(** C10_transfer_notifications, on a step *)
+Lemma transfer_notifications s c op s' r ns :
+  acct_inv s -> nstep s (c, op) = (s', r, ns) ->
+  (* a change of the recorded owner of [n] is announced, by exactly this list *)
+  (forall n, owner_of s n <> owner_of s' n -> ns = [NTransfer (owner_of s n) (owner_of s' n) n]) /\
+  (* at most one name changes owner *)
+  (forall n n', owner_of s n <> owner_of s' n -> owner_of s n' <> owner_of s' n' -> n = n') /\
+  (* every Transfer notification tells the truth *)
+  (forall f t n, NTransfer f t n ∈ ns -> f = owner_of s n /\ t = owner_of s' n).
+Proof.
+  intros Inv Hst.
+  destruct (nstep_cases hash valid_name valid_data str_ok s (c, op)) as [(s1 & r1 & ns1 & He & Hs)|[_ Hs]];
+    rewrite Hs in Hst; injection Hst as <- <- <-.
+  - cbn [fst snd] in He.
+    destruct (shape_owner _ _ _ Inv (nexec_shape _ _ _ _ _ _ Inv He)) as [Hn [Hall|(n0 & Hd & -> & Hoth)]].
+    + split; [|split; [|exact Hn]].
+      * intros n Hne. destruct Hne. symmetry. apply Hall.
+      * intros n n' Hne. destruct Hne. symmetry. apply Hall.
+    + assert (Hone : forall n, owner_of s n <> owner_of s1 n -> n = n0).
+      { intros n Hne. destruct (decide (n = n0)) as [->|Hnn]; [reflexivity|].
+        destruct Hne. symmetry. apply Hoth, Hnn. }
+      split; [|split; [|exact Hn]].
+      * intros n Hne. rewrite (Hone n Hne). reflexivity.
+      * intros n n' H1 H2. rewrite (Hone n H1), (Hone n' H2). reflexivity.
+  - split; [|split].
+    + intros n Hne. destruct Hne. reflexivity.
+    + intros n n' Hne. destruct Hne. reflexivity.
+    + intros f t n Hin. apply elem_of_nil in Hin. destruct Hin.
+Qed.
+
+(** names are never deleted, and keep their name *)
+Lemma names_persist s co k ns0 :
+  acct_inv s -> names s !! k = Some ns0 ->
+  exists ns1, names (fst (fst (nstep s co))) !! k = Some ns1 /\ ns_name ns1 = ns_name ns0.
+Proof.
+  intros Inv Hk.
+  destruct (nstep_cases hash valid_name valid_data str_ok s co) as [(s' & r & ns & He & ->)|[_ ->]];
+    cbn [fst]; [|eauto].
+  destruct (nexec_shape _ _ _ _ _ _ Inv He)
+    as [(-> & _) _|o n nsx -> _ _ _|k' nsa nsb Hm _|n ns1 Hm _|o n ns1 Hm _|o0 o n nsa nsb Hm _]; eauto.
+  - destruct Hm as (Hk' & _ & Hn & -> & _). destruct (decide (k = k')) as [->|Hne].
+    + rewrite lookup_insert. exists nsb. split; [reflexivity|congruence].
+    + rewrite lookup_insert_ne by congruence. eauto.
+  - destruct Hm as (Hk' & _ & _ & _ & -> & _). destruct (decide (k = hash n)) as [->|Hne]; [congruence|].
+    rewrite lookup_insert_ne by congruence. eauto.
+  - destruct Hm as (Hk' & _ & _ & _ & _ & -> & _). destruct (decide (k = hash n)) as [->|Hne]; [congruence|].
+    rewrite lookup_insert_ne by congruence. eauto.
+  - destruct Hm as (Hk' & Hn0 & _ & _ & _ & Hn & _ & -> & _). destruct (decide (k = hash n)) as [->|Hne].
+    + rewrite lookup_insert. exists nsb. split; [reflexivity|congruence].
+    + rewrite lookup_insert_ne by congruence. eauto.
 Qed.
 
 End Acct.
